@@ -1664,6 +1664,10 @@ class Interp:
                 j = z3.Int(self.fresh_name("e"))
                 self.assume(z3.ForAll([j], z3.Or(*[z3.Select(arr, j) == self.z(x) for x in t.values])))
             return lambda i, arr=arr, kind=kind: self.mk(z3.Select(arr, i), kind)
+        if isinstance(t, S._NanRealT):
+            nan = z3.Array(self.fresh_name(name + ".isnan"), z3.IntSort(), z3.BoolSort())
+            val = z3.Array(self.fresh_name(name), z3.IntSort(), z3.RealSort())
+            return lambda i, nan=nan, val=val: NanReal(z3.Select(nan, i), self.mk(z3.Select(val, i), "real"))
         if isinstance(t, S.Opt):
             isn = z3.Array(self.fresh_name(name + ".isnone"), z3.IntSort(), z3.BoolSort())
             inner = self.leaf_getter(t.t, name)
